@@ -457,6 +457,17 @@ Example nested_children_frozen_nonvacuous :
   end.
 Proof. exact one_child_run_outcomes. Qed.
 
+(* … and through a Chain child the compiled outer graph cannot be modified either: in every state reached from the empty
+   builder, once a Chain held by a node of the outer graph is compiled, an Append* on it makes EVERY later Compile of the
+   outer graph fail, whatever is called in between (the error is the chain's ErrChainCompiled or an earlier child's) *)
+Theorem nested_chain_child_append_blocks : forall st cs0 k id oc ch nk key ns cs o r,
+  let s := final nstep (n_init st) cs0 in
+  nlookup k (ns_att s) = Some (id, oc) -> nlookup id (ns_inn s) = Some (IC ch) -> g_compiled (c_g ch) = true ->
+  let s1 := fst (nstep s (NInner id (KC (CAppend nk key ns)))) in
+  snd (nstep (final nstep s1 cs) (NOuter (GCompile o))) <> OCompiled r.
+Proof. exact BuilderNested.nested_chain_child_append_blocks. Qed.
+Print Assumptions nested_chain_child_append_blocks.
+
 (* "invalid option combinations" on the nested entry: the options of a node (WithGraphCompileOptions) are what its child is
    compiled with — a Chain child refuses a trigger mode, a Graph child compiled in all-predecessor mode refuses its cycle,
    and the parent's Compile returns that error (the rules are those of rejects_each_kind / rejects_deferred: [inner_compile]
